@@ -106,7 +106,7 @@ class ModelWorld:
         fs.dirs.add(self.root)
         for d in ('loose', 'packs', 'duplicates', 'sandbox'):
             fs.dirs.add(self.root + '/' + d)
-        db = self.db = menv.ModelDB(fs)
+        db = self.db = menv.ModelDB(fs, self.root + '/packs.idx')
         self.dbs[self.root + '/packs.idx'] = db
         fs.files[self.root + '/packs.idx'] = menv.Node()
         fs.files[self.root + '/config.json'] = menv.Node(text='{}')
@@ -143,7 +143,9 @@ class ModelWorld:
     def junk(self, j, n):
         return self.menv.Seg([(('junk', j), 0, n)])
 
-    def stream(self, i, size):
+    def stream(self, i, size, cut=0):
+        if cut:
+            return self.menv.ShortStream(self.content(i, size), cut)
         return self.menv.MemStream(self.content(i, size))
 
     # ---- codec parameters (model zlib, vf/menv.py)
@@ -228,13 +230,13 @@ class ModelWorld:
         return ModelImage(files, [dict(r) for r in self.db.versions[-1]], self.prefix_len, self.root)
 
     def open_fds(self, count_index=False):
-        return len(self.fs.open_fds)
+        return len(self.fs.open_fds) if count_index else self.fs.count_files()
 
     def max_open(self):
         return self.fs.max_open
 
     def reset_max_open(self):
-        self.fs.max_open = len(self.fs.open_fds)
+        self.fs.max_open = self.fs.count_files()
 
     # ---- crash injection
     def install_crash(self, crash_at, durable):
@@ -249,30 +251,41 @@ class ModelWorld:
         fs.tick = tick
 
     def install_commit_monitor(self):
-        """C06 monitor: at every index commit, every new row's bytes must lie in the synced prefix of its pack."""
+        """C06 monitor: at every index commit, every row that is new or whose location changed designates bytes inside
+        the synced prefix of its pack; a loose file is unlinked only when a committed row on durable bytes replaces it;
+        a pack file is removed or renamed away only when no committed row references it."""
         self.monitor_ok = True
-        db, fs, menv = self.db, self.fs, self.menv
-        seen = set(r['hashkey'] for r in db.versions[-1])
+        db, fs = self.db, self.fs
+        seen = {}
+        for r in db.versions[-1]:
+            seen[r['hashkey']] = (r['pack_id'], r['offset'], r['length'])
         orig = fs.tick
+        root = self.root
 
         def tick(what):
-            if what[0] == 'commit':
-                rows = what[1]
-                for r in rows:
-                    if r['hashkey'] not in seen:
-                        node = fs.files.get(self.root + '/packs/' + str(r['pack_id']))
+            if what[0] == 'commit' and what[1] is not None:
+                for r in what[1]:
+                    loc = (r['pack_id'], r['offset'], r['length'])
+                    if seen.get(r['hashkey']) != loc:
+                        node = fs.files.get(root + '/packs/' + str(r['pack_id']))
                         if node is None or node.synced < r['offset'] + r['length']:
                             self.monitor_ok = False
-            if what[0] == 'unlink' and '/loose/' in what[1]:
+                        seen[r['hashkey']] = loc
+            if what[0] == 'unlink' and what[1].startswith(root + '/loose/'):
                 key = what[1].split('/loose/')[1].replace('/', '')
                 ok = False
                 for r in db.versions[-1]:
                     if r['hashkey'] == key:
-                        node = fs.files.get(self.root + '/packs/' + str(r['pack_id']))
+                        node = fs.files.get(root + '/packs/' + str(r['pack_id']))
                         if node is not None and node.synced >= r['offset'] + r['length']:
                             ok = True
                 if not ok:
                     self.monitor_ok = False
+            if what[0] in ('unlink', 'rename') and what[1].startswith(root + '/packs/') and not what[1].endswith('.lock'):
+                gone = what[1][len(root + '/packs/') :]
+                for r in db.versions[-1]:
+                    if str(r['pack_id']) == gone:
+                        self.monitor_ok = False
             orig(what)
 
         fs.tick = tick
@@ -350,6 +363,20 @@ class RealImage:
             for f in files:
                 out.append(os.path.relpath(os.path.join(root, f), base).replace('/', ''))
         return sorted(out)
+
+
+class _ShortRaw(io.BytesIO):
+    """a stream whose first read returns at most ``cut`` bytes (the io.RawIOBase short-read contract)"""
+
+    def __init__(self, data, cut):
+        io.BytesIO.__init__(self, data)
+        self._cut = cut
+
+    def read(self, n=-1):
+        if self._cut > 0 and (n is None or n < 0 or n > self._cut):
+            n = self._cut
+        self._cut = 0
+        return io.BytesIO.read(self, n)
 
 
 class _TickFile:
@@ -456,7 +483,9 @@ class RealWorld(RealImage):
     def junk(self, j, n):
         return bytes([0xA0 + (j % 16)]) * n
 
-    def stream(self, i, size):
+    def stream(self, i, size, cut=0):
+        if cut:
+            return _ShortRaw(real_bytes(i, size), cut)
         return io.BytesIO(real_bytes(i, size))
 
     # ---- codec parameters: the real compressed length is whatever zlib gives; the model's choice only selects
@@ -636,7 +665,7 @@ class RealWorld(RealImage):
         self._instrument()
         self.c = self.new_handle()
         self._monitor = True
-        self._seen = set(r['hashkey'] for r in self.rows())
+        self._seen = {r['hashkey']: (r['pack_id'], r['offset'], r['length']) for r in self.rows()}
 
     def _monitor_tick(self, what):
         if what[0] == 'commit':
@@ -646,7 +675,7 @@ class RealWorld(RealImage):
             self._check_after = True
         elif getattr(self, '_check_after', False):
             self._post_commit_check()
-        if what[0] in ('remove', 'unlink') and '/loose/' in what[1]:
+        if what[0] in ('remove', 'unlink') and '/loose/' in what[1] and what[1].startswith(self.folder):
             key = what[1].split('/loose/')[1].replace('/', '')
             ok = False
             for r in self.rows():
@@ -654,6 +683,12 @@ class RealWorld(RealImage):
                     ok = True
             if not ok:
                 self.monitor_ok = False
+        if what[0] in ('remove', 'unlink', 'rename', 'replace') and what[1].startswith(os.path.join(self.folder, 'packs') + os.sep):
+            gone = os.path.basename(what[1])
+            if not gone.endswith('.lock'):
+                for r in self.rows():
+                    if str(r['pack_id']) == gone:
+                        self.monitor_ok = False
 
     def _synced_len(self, pack_id):
         p = os.path.join(self.folder, 'packs', str(pack_id))
@@ -664,8 +699,9 @@ class RealWorld(RealImage):
     def _post_commit_check(self):
         self._check_after = False
         for r in self.rows():
-            if r['hashkey'] not in self._seen:
-                self._seen.add(r['hashkey'])
+            loc = (r['pack_id'], r['offset'], r['length'])
+            if self._seen.get(r['hashkey']) != loc:
+                self._seen[r['hashkey']] = loc
                 if self._pending.get(r['pack_id'], -1) < r['offset'] + r['length']:
                     self.monitor_ok = False
 
